@@ -22,10 +22,10 @@ type scenario struct {
 	args  []*big.Int
 }
 
-func (s scenario) i64(k int) int64   { return s.args[k].Int64() }
-func (s scenario) u64(k int) uint64  { return s.args[k].Uint64() }
-func (s scenario) int(k int) int     { return int(s.args[k].Int64()) }
-func (s scenario) uint(k int) uint   { return uint(s.args[k].Uint64()) }
+func (s scenario) i64(k int) int64  { return s.args[k].Int64() }
+func (s scenario) u64(k int) uint64 { return s.args[k].Uint64() }
+func (s scenario) int(k int) int    { return int(s.args[k].Int64()) }
+func (s scenario) uint(k int) uint  { return uint(s.args[k].Uint64()) }
 func (s scenario) rest(k int) []int64 {
 	out := make([]int64, 0, len(s.args)-k)
 	for _, a := range s.args[k:] {
